@@ -53,29 +53,51 @@ Section Cover.
 
   Definition same_mode (c c' : ctx) : Prop := snd c' = snd c.
 
-  Lemma next_ctx_mode c t : snd (next_ctx cdres c t) = snd c.
+  Lemma next_state_mode st t op : snd (fst (next_state cdres st t op)) = snd (fst st).
   Proof.
-    unfold next_ctx. destruct (snd c) eqn:E; [exact E|].
-    destruct (extract_cd_target t) as [tgt|]; [destruct (nonempty tgt); [reflexivity|]|];
-      destruct (changes_directory t); cbn [unknown_ctx snd]; exact E.
+    unfold next_state. destruct (snd (fst st)) eqn:E; [exact E|].
+    match goal with |- context [if snd ?m && _ then _ else _] => set (moved := m) end.
+    assert (Hm : snd (fst moved) = false).
+    { subst moved. destruct (str_eqb op op_bg); [exact E|].
+      destruct (extract_cd_target t) as [tgt|].
+      - destruct (nonempty tgt && str_eqb op op_and && negb (str_eqb (st_prev st) op_or)); [cbn [fst snd]; first [exact E|reflexivity]|].
+        destruct (nonempty tgt || changes_directory t); cbn [fst snd unknown_ctx]; exact E.
+      - destruct (changes_directory t); cbn [fst snd unknown_ctx]; exact E. }
+    destruct (snd moved && negb (str_eqb op op_and)); cbn [fst snd unknown_ctx]; exact Hm.
   Qed.
 
+  Lemma next_ctx_mode c t : snd (next_ctx cdres c t) = snd c.
+  Proof. unfold next_ctx. apply (next_state_mode (init_state c)). Qed.
+
   (* the elements of a sequence are each analysed, in a context with the same remote flag *)
-  Lemma seq_ctxs_mode c l : forall p, In p (seq_ctxs cdres c l) -> same_mode c (fst p).
+  Lemma seq_ctxs_mode st l : forall p, In p (seq_ctxs cdres st l) -> same_mode (fst st) (fst p).
   Proof.
-    revert c; induction l as [|t l IH]; intros c p; [intros []|].
+    revert st; induction l as [|[t op] l IH]; intros st p; [intros []|].
     cbn [seq_ctxs]. intros [<-|H]; [reflexivity|].
-    apply IH in H. unfold same_mode in *. rewrite H. apply next_ctx_mode.
+    apply IH in H. unfold same_mode in *. rewrite H. apply next_state_mode.
   Qed.
+  Lemma item_ctx_mode c t : snd (item_ctx c t) = snd c.
+  Proof. unfold item_ctx. destruct (negb (snd c) && item_moves t); reflexivity. Qed.
+
+  (* every item of an approved case is approved, in a context with the same remote flag *)
+  Lemma pats_all c l : ok (pats simple astr mredir cdres injrisk rulematch c l) -> forall d, In d l -> exists c', same_mode c c' /\ ok (r_pat (ev d) c').
+  Proof.
+    revert c; induction l as [|p l IH]; intros c H d; [intros []|].
+    cbn [pats] in H. apply ok_app in H as [Hp Hr]. intros [<-|Hd].
+    - exists c. split; [reflexivity|exact Hp].
+    - destruct (IH _ Hr d Hd) as [c' [Hm Hc']]. exists c'. split; [|exact Hc'].
+      unfold same_mode in *. rewrite Hm. apply item_ctx_mode.
+  Qed.
+
   Lemma body_ctx_mode c b : snd (body_ctx c b) = snd c.
   Proof. unfold body_ctx. destruct (negb (snd c) && b); reflexivity. Qed.
 
-  Lemma seq_ctxs_all c l : forall t, In t l -> exists c', In (c', t) (seq_ctxs cdres c l).
+  Lemma seq_ctxs_all st l : forall t, In t (map fst l) -> exists c', In (c', t) (seq_ctxs cdres st l).
   Proof.
-    revert c; induction l as [|x l IH]; intros c t; [intros []|].
-    cbn [seq_ctxs]. intros [<-|H].
-    - exists c. left; reflexivity.
-    - destruct (IH (next_ctx cdres c x) t H) as [c' Hc]. exists c'. right; exact Hc.
+    revert st; induction l as [|[x op] l IH]; intros st t; [intros []|].
+    cbn [seq_ctxs map fst]. intros [<-|H].
+    - exists (fst st). left; reflexivity.
+    - destruct (IH (next_state cdres st x op) t H) as [c' Hc]. exists c'. right; exact Hc.
   Qed.
 
   Ltac kinds :=
@@ -109,7 +131,8 @@ Section Cover.
       unfold ok in H. rewrite Forall_map, Forall_forall in H. exact (H d Hd). }
     destruct (str_eqb k $"list") eqn:E2; [apply str_eqb_eq in E2; subst k|].
     { rewrite walk_list, sequence_ctxs in H. apply ok_combine in H. apply in_tag in Hin as [-> Hd].
-      destruct (seq_ctxs_all c _ d Hd) as [c' Hc']. exists c'. split; [exact (seq_ctxs_mode c _ _ Hc')|].
+      rewrite <- list_items_parts in Hd.
+      destruct (seq_ctxs_all (init_state c) _ d Hd) as [c' Hc']. exists c'. split; [exact (seq_ctxs_mode (init_state c) _ _ Hc')|].
       cbn [field]. constructor; [|constructor]. unfold ok in H. rewrite Forall_map, Forall_forall in H.
       exact (H (c', d) Hc'). }
     destruct (str_eqb k $"if") eqn:E3; [apply str_eqb_eq in E3; subst k|].
@@ -161,8 +184,7 @@ Section Cover.
       - apply in_tag in Hi as [-> Hd]. exists c. split; [reflexivity|].
         unfold wparts in Hw. rewrite ok_flat_map in Hw. exact (Hw d Hd).
       - apply in_app_or in Hi as [Hi|Hi]; [|exact (Hred tt Hr Hi)].
-        apply in_tag in Hi as [-> Hd]. exists c. split; [reflexivity|].
-        unfold pats in Hp. rewrite ok_flat_map in Hp. exact (Hp d Hd). }
+        apply in_tag in Hi as [-> Hd]. destruct (pats_all c _ Hp d Hd) as [c' [Hm Hc']]. exists c'. split; [exact Hm|exact Hc']. }
     destruct (str_eqb k $"function") eqn:E10; [apply str_eqb_eq in E10; subst k|].
     { rewrite walk_function in H. apply in_tag in Hin as [-> Hd]. exists c. split; [reflexivity|].
       cbn [field]. constructor; [|constructor]. apply firstc_child in Hd. rewrite Hd in H. exact H. }
